@@ -329,6 +329,29 @@ class SplitMix:
     def bytes(self, n):
         return bytes(self.below(256) for _ in range(n))
 
+    def addr(self, v6):
+        """an IPv4 / IPv6 address, special forms included (v4-mapped, v4-compatible, runs of leading zero octets, loopback,
+        unspecified, all ones, NAT64) - the forms address handling code likes to treat specially"""
+        if not v6:
+            return self.choice([self.bytes(4), self.bytes(4), b'\x00\x00\x00\x00', b'\xff\xff\xff\xff', b'\x7f\x00\x00\x01', b'\x00' + self.bytes(3)])
+        k = self.below(12)
+        if k < 5:
+            return self.bytes(16)
+        if k == 5:
+            return bytes(10) + b'\xff\xff' + self.bytes(4)            # ::ffff:a.b.c.d
+        if k == 6:
+            return bytes(12) + self.bytes(4)                            # ::a.b.c.d
+        if k == 7:
+            z = self.choice([8, 9, 10, 11, 13, 14, 15])
+            return bytes(z) + bytes([1 + self.below(255)]) + self.bytes(15 - z)
+        if k == 8:
+            return self.choice([bytes(16), bytes(15) + b'\x01', b'\xff' * 16])
+        if k == 9:
+            return b'\x00\x64\xff\x9b' + bytes(8) + self.bytes(4)    # 64:ff9b::a.b.c.d
+        if k == 10:
+            return bytes(10) + b'\xff\xfe' + self.bytes(4)
+        return b'\xfe\x80' + bytes(6) + self.bytes(8)
+
 
 def case_dir(pid):
     d = os.path.join(BUILD, 'cases', pid)
